@@ -19,6 +19,7 @@ def non_test_span(text):
 
 
 ROUND2 = False
+ROUND3 = False
 
 
 def gen_mutants():
@@ -104,6 +105,66 @@ def gen_mutants():
                 for m in re.finditer(r'\bSome\(', code):
                     if '=> Some(' in code or 'return Some(' in code:
                         pass
+            if ROUND3:
+                # round 3 operators: conjunct / disjunct dropped, Some -> None, len()+1, dropped filter, neighbouring hole, deleted template token,
+                # changed affix in a format string, swapped results of adjacent single-line match arms, index +1, dropped dereference-free adapters
+                for m in re.finditer(r'(&&|\|\|)', code):
+                    # drop the right operand up to the end of a simple condition (single-line `if a && b {` / closure bodies)
+                    rest = code[m.end():]
+                    m2 = re.match(r'\s*([^&|{};]+?)\s*(\{|\)\s*$|$)', rest)
+                    if m2 and m2.group(1).count('(') == m2.group(1).count(')'):
+                        add(m.start(), code[m.start():m.end() + m2.end(1)], '', 'drop-right-operand')
+                for m in re.finditer(r'\bSome\(([^()]*(\([^()]*\))?[^()]*)\)', code):
+                    if '=>' in code[:m.start()] or 'return' in code[:m.start()] or code.strip().startswith('Some('):
+                        add(m.start(), m.group(0), 'None', 'some->none')
+                for m in re.finditer(r'\.len\(\)', code):
+                    add(m.start(), '.len()', '.len().saturating_sub(1)', 'len-1')
+                    add(m.start(), '.len()', '.len().saturating_add(1)', 'len+1')
+                for m in re.finditer(r'\.filter\(\|[^|]*\| [^()]*(\([^()]*\))*[^()]*\)$', code.rstrip()):
+                    add(m.start(), m.group(0), '', 'drop-filter')
+                holes = [h for h in re.finditer(r'#(\w+)', code)]
+                if holes and 'quote' in body[max(0, off - 2500):off + len(line)]:
+                    ctx_ = body[max(0, off - 1200):off + len(line) + 600]
+                    names_ = []
+                    for h in re.finditer(r'#(\w+)', ctx_):
+                        if h.group(1) not in names_:
+                            names_.append(h.group(1))
+                    for h in holes:
+                        for other in names_:
+                            if other != h.group(1):
+                                add(h.start(), h.group(0), '#' + other, 'hole-neighbour')
+                                break
+                if 'quote!' in code or ('quote' in body[max(0, off - 1500):off] and not re.search(r'\blet\b|=>|\bif\b|\bfn\b', code)):
+                    for m in re.finditer(r"(?<![\w#])(&|mut |pub |'a |'static |\*|as u64|as f64|Some)(?=[\w#(' ])", code):
+                        if m.group(1) == '*' and code[m.start() - 1:m.start()] in (')', ']') or m.group(1) == '*' and code[m.start() + 1:m.start() + 2] in (' ', ')'):
+                            continue
+                        add(m.start(), m.group(1), '', 'template-token-delete')
+                for m in re.finditer(r'format!\("([^"]*)"', code):
+                    lit = m.group(1)
+                    if '_' in lit:
+                        i_ = lit.index('_')
+                        add(m.start(1) + i_, '_', '', 'affix-underscore')
+                    if lit.startswith('{') and lit.endswith('}') is False and len(lit) > 2:
+                        pass
+                m = re.match(r'^(\s*)(.+?) => (.+),\s*$', code)
+                if m and ln < len(lines):
+                    nxt = lines[ln] if ln < len(lines) else ''
+                    m2 = re.match(r'^(\s*)(.+?) => (.+),\s*$', nxt.split('//')[0] if '"' not in nxt else nxt)
+                    if m2 and m.group(3) != m2.group(3) and '{' not in m.group(3) and '{' not in m2.group(3):
+                        muts.append({'file': path, 'line': ln, 'pos': off, 'old': line + '\n' + nxt,
+                                     'new': f'{m.group(1)}{m.group(2)} => {m2.group(3)},\n{m2.group(1)}{m2.group(2)} => {m.group(3)},', 'op': 'arm-swap'})
+                for m in re.finditer(r'\*(\w+)(?= as usize| as u64|\))', code):
+                    if m.group(1) in ('group_no', 'location', 'size', 'i'):
+                        add(m.start(), m.group(0), '(' + m.group(0) + ' + 1)', 'value+1')
+                for m in re.finditer(r'\.(cloned|copied)\(\)', code):
+                    pass
+                for m in re.finditer(r'\.enumerate\(\)', code):
+                    add(m.start(), '.enumerate()', '.enumerate().skip(1)', 'enumerate-skip')
+                for m in re.finditer(r'\.keys\(\)', code):
+                    add(m.start(), '.keys()', '.keys().rev()', 'keys-rev')
+                    add(m.start(), '.keys()', '.keys().skip(1)', 'keys-skip')
+                for m in re.finditer(r'\.unwrap_or\(([^()]+)\)', code):
+                    pass
             # statement deletion: a line that is one complete expression statement (method call / macro), not a let / return / brace
             if stripped.endswith(';') and not stripped.startswith(('let ', 'return', 'use ', 'pub ', 'const ', '}', '#', 'type ', 'struct ', 'mod ')) and \
                     stripped.count('(') == stripped.count(')') and '=' not in stripped.split('(')[0] and re.match(r'^[\w.:&*]+[(!]', stripped):
@@ -183,6 +244,14 @@ if __name__ == '__main__':
         globals()['ROUND2'] = False
         first = {(m['file'], m['pos'], m['old'], m['new']) for m in gen_mutants()}
         muts = [m for m in muts if (m['file'], m['pos'], m['old'], m['new']) not in first]
+    if '--round3' in args:
+        first = {(m['file'], m['pos'], m['old'], m['new']) for m in gen_mutants()}
+        globals()['ROUND2'] = True
+        first |= {(m['file'], m['pos'], m['old'], m['new']) for m in gen_mutants()}
+        globals()['ROUND2'] = False
+        globals()['ROUND3'] = True
+        muts = [m for m in gen_mutants() if (m['file'], m['pos'], m['old'], m['new']) not in first]
+        globals()['ROUND3'] = False
     if '--list' in args:
         from collections import Counter
         print(len(muts), Counter(m['op'] for m in muts))
